@@ -264,7 +264,7 @@ structure FloatCostsOk (fc : List (List Rat)) : Prop where
   lower : ∀ r, r ∈ fc → ∀ c, c ∈ r → -((fc.length : Rat) * fcMaxVal fc) ≤ c
 
 lemma floatCostsOk_iff (fc : List (List Rat)) : floatCostsOk fc = true ↔ FloatCostsOk fc := by
-  simp only [floatCostsOk, Bool.and_eq_true, decide_eq_true_eq, List.all_eq_true]
+  simp only [floatCostsOk, allBetween, Bool.and_eq_true, decide_eq_true_eq, List.all_eq_true]
   constructor
   · rintro ⟨h1, h2⟩
     exact ⟨h1, fun r hr c hc => (h2 r hr c hc).1, fun r hr c hc => (h2 r hr c hc).2⟩
